@@ -331,6 +331,34 @@ def searchFilter (c : Coll) (f : Filter) (cands : List Nat) (limit : Nat) : Exce
   | .error e => .error e
   | .ok r => .ok (truncate false r limit)
 
+/-- `search_ids` after its index stage. `cands` is what the index stage produced: `none` when the
+query has no `search` part, `some cs` = the fused, relevance-ordered, duplicate-free candidate list
+(at most `top_k` per index; the BM25 / HNSW / RRF ranking itself is C11's / C12's business).
+`limit` is the caller's `Query::limit`. -/
+def searchIds (c : Coll) (f : Option Filter) (cands : Option (List Nat)) (limit : Option Nat) :
+    Except Err (List Nat) :=
+  let l := min (limit.getD Gen.FilterConsts.searchDefaultLimit) maxSearchLimit
+  if l == 0 then .ok []
+  else
+    let topK := min (l * Gen.FilterConsts.searchFactor) Gen.FilterConsts.searchCap
+    match cands with
+    | some [] => .ok []                       -- `if candidates.is_empty() { return Ok(result) }`
+    | _ =>
+      let cs := cands.getD []
+      match f with
+      | none => .ok (truncate false cs l)     -- `None => result = candidates`
+      | some f =>
+        match filterByField c f cs topK false with
+        | .error e => .error e
+        | .ok r => .ok (truncate false r l)
+
+/-- `search_ids` as called: `Query::validate_complexity` first. -/
+def apiSearchIds (c : Coll) (f : Option Filter) (cands : Option (List Nat)) (limit : Option Nat) :
+    Except Err (List Nat) :=
+  match f with
+  | some g => if withinBudget g then searchIds c f cands limit else .error .complexity
+  | none => searchIds c f cands limit
+
 -- ------------------------------------------------------------------------------------------
 -- id-level denotation: the set-algebra reading
 -- ------------------------------------------------------------------------------------------
